@@ -86,6 +86,59 @@ func StepErr(i int, st Step, err error) string {
 	return fmt.Sprintf("infeasible: step %d %s@%s: %v", i, st.T, st.P, err)
 }
 
+// RunSteps forces the steps of a behaviour onto the threads of s, one goroutine at a time.
+// special (may be nil) executes steps that the driver performs itself (it reports handled);
+// after (may be nil) runs after each executed step and may end the forcing by returning a
+// non-empty outcome; state returns the private state that is compared with the step's Exp.
+//
+// The first departure from the behaviour (a thread waiting at another gate than the named
+// one, private state differing from the specification's) is recorded as the outcome
+// ("drift: ..."), but the forcing continues best-effort: the remaining (thread, step) order is
+// still imposed for as long as the named thread waits at some gate - it is granted from
+// wherever it is - and steps of threads that are not at a gate are skipped.  Any schedule is
+// a legal schedule of the real goroutines, so the recorded events stay valid input for the
+// Level-A monitor.  Scheduler errors (time-outs, unexpected arrivals) end the forcing.
+func RunSteps(s *Sched, steps []Step, special func(i int, st Step, drifted bool) (bool, error),
+	after func(i int, st Step) string, state func() map[string]any) string {
+	outcome := "ok"
+	note := func(o string) {
+		if outcome == "ok" {
+			outcome = o
+		}
+	}
+	for i, st := range steps {
+		s.Log(map[string]any{"ev": "at", "t": st.T, "p": st.P})
+		handled, err := false, error(nil)
+		if special != nil {
+			handled, err = special(i, st, outcome != "ok")
+		}
+		if !handled && err == nil {
+			at := s.At(st.T)
+			if at != st.P {
+				note(fmt.Sprintf("drift: step %d expects %s at %s but it is at %q", i, st.T, st.P, at))
+				if at == "" || at == "end" || at == "parked" {
+					continue
+				}
+			}
+			_, err = s.Step(st.T, at)
+		}
+		if err != nil {
+			note(StepErr(i, st, err))
+			break
+		}
+		if after != nil {
+			if o := after(i, st); o != "" {
+				note(o)
+				break
+			}
+		}
+		if outcome == "ok" {
+			outcome = CheckExp(i, st, state())
+		}
+	}
+	return outcome
+}
+
 // Log is an event log for free-running rounds.
 type Log struct {
 	mu  sync.Mutex
